@@ -1,4 +1,5 @@
 import dis
+import json
 import re
 import yaml
 from typing import (
@@ -1222,22 +1223,33 @@ class SCFGIO:
         edges = graph_dict["edges"]
         backedges = graph_dict["backedges"]
 
+        def fmt(v: Any) -> str:
+            # Names must stay strings, also if they look like numbers or
+            # contain quotes or backslashes: a JSON string is a valid YAML
+            # double-quoted scalar.
+            if isinstance(v, str):
+                return json.dumps(v)
+            if isinstance(v, (list, tuple)):
+                return "[" + ", ".join(fmt(i) for i in v) + "]"
+            if isinstance(v, dict):
+                items = [f"{fmt(k)}: {fmt(i)}" for k, i in v.items()]
+                return "{" + ", ".join(items) + "}"
+            return str(v)
+
         ys += "\nblocks:\n"
         for b in sorted(blocks):
-            ys += indent(f"'{b}':\n", " " * 8)
+            ys += indent(f"{fmt(b)}:\n", " " * 8)
             for k, v in blocks[b].items():
-                # names must stay strings, also if they look like numbers
-                v = repr(v) if isinstance(v, str) else v
-                ys += indent(f"{k}: {v}\n", " " * 12)
+                ys += indent(f"{k}: {fmt(v)}\n", " " * 12)
 
         ys += "\nedges:\n"
         for b in sorted(blocks):
-            ys += indent(f"'{b}': {edges[b]}\n", " " * 8)
+            ys += indent(f"{fmt(b)}: {fmt(edges[b])}\n", " " * 8)
 
         ys += "\nbackedges:\n"
         for b in sorted(blocks):
             if backedges[b]:
-                ys += indent(f"'{b}': {backedges[b]}\n", " " * 8)
+                ys += indent(f"{fmt(b)}: {fmt(backedges[b])}\n", " " * 8)
         return ys
 
     @staticmethod
